@@ -374,6 +374,14 @@ mod native {
                 }
             }
         }
+        // the slide masks (lazily built tables) for every pair of squares
+        for s in 0..64u8 {
+            for t in 0..64u8 {
+                assert_eq!(ROOK_SLIDE_MASKS[sq(s)].test(sq(t)), spec_in_mask(s, t, true), "rook mask {} {}", s, t);
+                assert_eq!(BISHOP_SLIDE_MASKS[sq(s)].test(sq(t)), spec_in_mask(s, t, false), "bishop mask {} {}", s, t);
+                count += 1;
+            }
+        }
         println!("NATIVE-COUNT {}", count);
     }
 }
